@@ -761,6 +761,8 @@ func preNormalise(orig, cur *packages.Package, base map[string][]byte, rep *inli
 	for round := 0; round < 3; round++ {
 		nz := &normaliser{pkg: cur, info: cur.TypesInfo, changed: map[*ast.File]bool{}, n: outer*10000 + round*1000, baseline: baseline, splice: map[ast.Stmt][]ast.Stmt{}}
 		nz.findTables()
+		nz.foldSeams()
+		nz.flattenStructParams()
 		for _, f := range cur.Syntax {
 			nz.unrollIn(f)
 			nz.containsIn(f)
@@ -770,6 +772,7 @@ func preNormalise(orig, cur *packages.Package, base map[string][]byte, rep *inli
 			nz.omapIteratorsIn(f)
 			nz.etaExpandIn(f)
 			nz.sinkDefersIn(f)
+			nz.localRefsIn(f)
 			nz.libIdiomsIn(f)
 		}
 		if len(nz.changed) == 0 {
@@ -1888,7 +1891,23 @@ func (nz *normaliser) libIdiomsIn(f *ast.File) {
 			}
 		}
 		sel, ok := ce.Fun.(*ast.SelectorExpr)
-		if !ok || len(ce.Args) != 2 || (sel.Sel.Name != "AppendDecode" && sel.Sel.Name != "AppendEncode") {
+		if !ok {
+			return true
+		}
+		// io.ReadFull(rand.Reader, b) -> rand.Read(b)   (crypto/rand.Read is documented as exactly that)
+		if sel.Sel.Name == "ReadFull" && len(ce.Args) == 2 {
+			if fo, ok := nz.info.Uses[sel.Sel].(*types.Func); ok && fo.Pkg() != nil && fo.Pkg().Path() == "io" {
+				if rs, ok := ce.Args[0].(*ast.SelectorExpr); ok && rs.Sel.Name == "Reader" {
+					if vo, ok := nz.info.Uses[rs.Sel].(*types.Var); ok && vo.Pkg() != nil && vo.Pkg().Path() == "crypto/rand" {
+						c.Replace(&ast.CallExpr{Fun: &ast.SelectorExpr{X: rs.X, Sel: ast.NewIdent("Read")}, Args: []ast.Expr{ce.Args[1]}})
+						nz.changed[f] = true
+						nz.log = append(nz.log, "io.ReadFull(rand.Reader, b) written as rand.Read(b)")
+						return true
+					}
+				}
+			}
+		}
+		if len(ce.Args) != 2 || (sel.Sel.Name != "AppendDecode" && sel.Sel.Name != "AppendEncode") {
 			return true
 		}
 		tv, ok := nz.info.Types[sel.X]
@@ -1909,4 +1928,892 @@ func (nz *normaliser) libIdiomsIn(f *ast.File) {
 		nz.log = append(nz.log, "base64 "+sel.Sel.Name+"(nil, x) written with the string form")
 		return true
 	})
+}
+
+// ---- N10: test seams ----
+//
+// A package-level variable that exists so that tests can replace a dependency -
+//
+//	var timeNow = time.Now
+//	var exit = os.Exit
+//	var defaultKeyStore = keyStore{readFile: os.ReadFile, writeFile: os.WriteFile, entropy: rand.Reader}
+//
+// - and that no non-test code ever assigns, takes the address of or hands out whole, IS its
+// initial value as far as the analysed program goes. Its uses are written as that value:
+// `timeNow()` -> `time.Now()`, `exit(1)` -> `os.Exit(1)`, `defaultKeyStore.readFile` ->
+// `os.ReadFile`, and a local copy `ks := defaultKeyStore` becomes the literal (which the
+// scalar replacement of local structs then takes apart).
+func (nz *normaliser) foldSeams() {
+	type seam struct {
+		obj  *types.Var
+		init ast.Expr
+		file *ast.File
+	}
+	seams := map[*types.Var]*seam{}
+	// a "reference" initialiser: a function of this or another package, or a package-level
+	// variable / constant of ANOTHER package (rand.Reader, os.Stderr)
+	isRef := func(e ast.Expr) bool {
+		switch x := e.(type) {
+		case *ast.Ident:
+			_, isF := nz.info.Uses[x].(*types.Func)
+			return isF
+		case *ast.SelectorExpr:
+			if pid, ok := x.X.(*ast.Ident); ok {
+				if _, isPkg := nz.info.Uses[pid].(*types.PkgName); isPkg {
+					switch nz.info.Uses[x.Sel].(type) {
+					case *types.Func, *types.Var, *types.Const:
+						return true
+					}
+				}
+			}
+		case *ast.BasicLit:
+			return true
+		}
+		return false
+	}
+	for _, f := range nz.pkg.Syntax {
+		for _, d := range f.Decls {
+			gd, ok := d.(*ast.GenDecl)
+			if !ok || gd.Tok != token.VAR {
+				continue
+			}
+			for _, sp := range gd.Specs {
+				vs := sp.(*ast.ValueSpec)
+				if len(vs.Names) != 1 || len(vs.Values) != 1 {
+					continue
+				}
+				obj, _ := nz.info.Defs[vs.Names[0]].(*types.Var)
+				if obj == nil {
+					continue
+				}
+				switch obj.Type().Underlying().(type) {
+				case *types.Signature:
+					if isRef(vs.Values[0]) {
+						seams[obj] = &seam{obj, vs.Values[0], f}
+					}
+				case *types.Struct:
+					cl, ok := vs.Values[0].(*ast.CompositeLit)
+					if !ok || cl.Type == nil {
+						continue
+					}
+					okAll := len(cl.Elts) > 0
+					hasFunc := false
+					for _, e := range cl.Elts {
+						kv, isKV := e.(*ast.KeyValueExpr)
+						if !isKV || !isRef(kv.Value) {
+							okAll = false
+							continue
+						}
+						if tv, ok := nz.info.Types[kv.Value]; ok {
+							if _, isSig := tv.Type.Underlying().(*types.Signature); isSig {
+								hasFunc = true
+							}
+						}
+					}
+					if okAll && hasFunc {
+						seams[obj] = &seam{obj, cl, f}
+					}
+				}
+			}
+		}
+	}
+	if len(seams) == 0 {
+		return
+	}
+	// disqualify: assigned, address taken, field assigned, ++/--
+	for _, f := range nz.pkg.Syntax {
+		ast.Inspect(f, func(n ast.Node) bool {
+			root := func(e ast.Expr) *types.Var {
+				if id := rootIdent(e); id != nil {
+					if v, ok := nz.info.Uses[id].(*types.Var); ok {
+						return v
+					}
+				}
+				return nil
+			}
+			switch x := n.(type) {
+			case *ast.AssignStmt:
+				for _, l := range x.Lhs {
+					if v := root(l); v != nil {
+						delete(seams, v)
+					}
+				}
+			case *ast.UnaryExpr:
+				if x.Op == token.AND {
+					if v := root(x.X); v != nil {
+						delete(seams, v)
+					}
+				}
+			case *ast.IncDecStmt:
+				if v := root(x.X); v != nil {
+					delete(seams, v)
+				}
+			case *ast.RangeStmt:
+				if x.Tok == token.ASSIGN {
+					for _, e := range []ast.Expr{x.Key, x.Value} {
+						if e != nil {
+							if v := root(e); v != nil {
+								delete(seams, v)
+							}
+						}
+					}
+				}
+			}
+			return true
+		})
+	}
+	if len(seams) == 0 {
+		return
+	}
+	// struct seams: every use must be `G.field` or a whole-value copy into a new local
+	// (`ks := G`, `var ks T = G`); anything else (passed to a function, compared ...) keeps it
+	for _, f := range nz.pkg.Syntax {
+		var stack []ast.Node
+		ast.Inspect(f, func(n ast.Node) bool {
+			if n == nil {
+				stack = stack[:len(stack)-1]
+				return true
+			}
+			stack = append(stack, n)
+			id, ok := n.(*ast.Ident)
+			if !ok {
+				return true
+			}
+			v, _ := nz.info.Uses[id].(*types.Var)
+			sm := seams[v]
+			if sm == nil {
+				return true
+			}
+			if _, isStruct := v.Type().Underlying().(*types.Struct); !isStruct {
+				return true
+			}
+			parent := stack[len(stack)-2]
+			okUse := false
+			switch p := parent.(type) {
+			case *ast.SelectorExpr:
+				okUse = p.X == ast.Expr(id)
+			case *ast.AssignStmt:
+				okUse = p.Tok == token.DEFINE && len(p.Rhs) == 1 && p.Rhs[0] == ast.Expr(id)
+			case *ast.ValueSpec:
+				okUse = len(p.Values) == 1 && p.Values[0] == ast.Expr(id)
+			}
+			if !okUse {
+				delete(seams, v)
+			}
+			return true
+		})
+	}
+	if len(seams) == 0 {
+		return
+	}
+	needImports := func(f *ast.File, e ast.Expr, from *ast.File) {
+		ast.Inspect(e, func(n ast.Node) bool {
+			if id, ok := n.(*ast.Ident); ok {
+				if pn, ok := nz.info.Uses[id].(*types.PkgName); ok {
+					have := false
+					for _, imp := range f.Imports {
+						if strings.Trim(imp.Path.Value, "\"") == pn.Imported().Path() {
+							have = true
+						}
+					}
+					if !have {
+						if pn.Name() == pn.Imported().Name() {
+							astutil.AddImport(nz.pkg.Fset, f, pn.Imported().Path())
+						} else {
+							astutil.AddNamedImport(nz.pkg.Fset, f, pn.Name(), pn.Imported().Path())
+						}
+					}
+				}
+			}
+			return true
+		})
+	}
+	for _, f := range nz.pkg.Syntax {
+		f := f
+		astutil.Apply(f, nil, func(c *astutil.Cursor) bool {
+			switch x := c.Node().(type) {
+			case *ast.SelectorExpr:
+				id, ok := x.X.(*ast.Ident)
+				if !ok {
+					return true
+				}
+				v, _ := nz.info.Uses[id].(*types.Var)
+				sm := seams[v]
+				if sm == nil {
+					return true
+				}
+				cl, ok := sm.init.(*ast.CompositeLit)
+				if !ok {
+					return true
+				}
+				for _, e := range cl.Elts {
+					kv := e.(*ast.KeyValueExpr)
+					if kid, ok := kv.Key.(*ast.Ident); ok && kid.Name == x.Sel.Name {
+						needImports(f, kv.Value, sm.file)
+						c.Replace(nz.copyWithInfo(kv.Value))
+						nz.changed[f] = true
+						nz.log = append(nz.log, "seam "+v.Name()+"."+x.Sel.Name+" written as its initial value")
+						return true
+					}
+				}
+			case *ast.Ident:
+				v, _ := nz.info.Uses[x].(*types.Var)
+				sm := seams[v]
+				if sm == nil {
+					return true
+				}
+				if _, isSel := c.Parent().(*ast.SelectorExpr); isSel {
+					return true // handled above (X of a selector) or a field name
+				}
+				if _, isKV := c.Parent().(*ast.KeyValueExpr); isKV && c.Name() == "Key" {
+					return true
+				}
+				needImports(f, sm.init, sm.file)
+				c.Replace(nz.copyWithInfo(sm.init))
+				nz.changed[f] = true
+				nz.log = append(nz.log, "seam "+v.Name()+" written as its initial value")
+			}
+			return true
+		})
+	}
+}
+
+// ---- N11: local names of functions / package variables ----
+//
+// `var read func(string) ([]byte, error) = os.ReadFile` (what is left of a folded seam or of a
+// scalar-replaced options struct), with `read` never assigned again and its address never
+// taken: uses of `read` are written as `os.ReadFile`.
+func (nz *normaliser) localRefsIn(f *ast.File) {
+	isRef := func(e ast.Expr) bool {
+		switch x := e.(type) {
+		case *ast.Ident:
+			if _, isF := nz.info.Uses[x].(*types.Func); isF {
+				return true
+			}
+		case *ast.SelectorExpr:
+			if pid, ok := x.X.(*ast.Ident); ok {
+				if _, isPkg := nz.info.Uses[pid].(*types.PkgName); isPkg {
+					switch nz.info.Uses[x.Sel].(type) {
+					case *types.Func, *types.Var:
+						return true
+					}
+				}
+			}
+		}
+		return false
+	}
+	for _, d := range f.Decls {
+		fd, ok := d.(*ast.FuncDecl)
+		if !ok || fd.Body == nil {
+			continue
+		}
+		cands := map[*types.Var]ast.Expr{}
+		// (a local initialised with another such local is one too: chains are followed)
+		isRefOrCand := func(e ast.Expr) bool {
+			if isRef(e) {
+				return true
+			}
+			if id, ok := e.(*ast.Ident); ok {
+				if v, ok := nz.info.Uses[id].(*types.Var); ok {
+					_, is := cands[v]
+					return is
+				}
+			}
+			return false
+		}
+		for grown := true; grown; {
+			grown = false
+			ast.Inspect(fd.Body, func(n ast.Node) bool {
+				switch x := n.(type) {
+				case *ast.ValueSpec:
+					if len(x.Names) == len(x.Values) {
+						for i, nm := range x.Names {
+							if v, ok := nz.info.Defs[nm].(*types.Var); ok && isRefOrCand(x.Values[i]) {
+								if _, had := cands[v]; !had {
+									cands[v] = x.Values[i]
+									grown = true
+								}
+							}
+						}
+					}
+				case *ast.AssignStmt:
+					if x.Tok == token.DEFINE && len(x.Lhs) == len(x.Rhs) {
+						for i, l := range x.Lhs {
+							if id, ok := l.(*ast.Ident); ok {
+								if v, ok := nz.info.Defs[id].(*types.Var); ok && isRefOrCand(x.Rhs[i]) {
+									if _, had := cands[v]; !had {
+										cands[v] = x.Rhs[i]
+										grown = true
+									}
+								}
+							}
+						}
+					}
+				}
+				return true
+			})
+		}
+		if len(cands) == 0 {
+			continue
+		}
+		ast.Inspect(fd.Body, func(n ast.Node) bool {
+			kill := func(e ast.Expr) {
+				if id := rootIdent(e); id != nil {
+					if v, ok := nz.info.Uses[id].(*types.Var); ok {
+						delete(cands, v)
+					}
+				}
+			}
+			switch x := n.(type) {
+			case *ast.AssignStmt:
+				if x.Tok != token.DEFINE {
+					for _, l := range x.Lhs {
+						kill(l)
+					}
+				} else {
+					// a := redeclaration of an existing variable in a multi-assign
+					for _, l := range x.Lhs {
+						if id, ok := l.(*ast.Ident); ok && nz.info.Defs[id] == nil {
+							kill(l)
+						}
+					}
+				}
+			case *ast.UnaryExpr:
+				if x.Op == token.AND {
+					kill(x.X)
+				}
+			case *ast.IncDecStmt:
+				kill(x.X)
+			case *ast.RangeStmt:
+				if x.Tok == token.ASSIGN {
+					if x.Key != nil {
+						kill(x.Key)
+					}
+					if x.Value != nil {
+						kill(x.Value)
+					}
+				}
+			}
+			return true
+		})
+		if len(cands) == 0 {
+			continue
+		}
+		astutil.Apply(fd.Body, nil, func(c *astutil.Cursor) bool {
+			id, ok := c.Node().(*ast.Ident)
+			if !ok {
+				return true
+			}
+			v, _ := nz.info.Uses[id].(*types.Var)
+			e, ok := cands[v]
+			if !ok {
+				return true
+			}
+			if sel, isSel := c.Parent().(*ast.SelectorExpr); isSel && sel.Sel == id {
+				return true
+			}
+			if as, isAs := c.Parent().(*ast.AssignStmt); isAs && len(as.Lhs) == 1 {
+				if l, ok := as.Lhs[0].(*ast.Ident); ok && l.Name == "_" {
+					return true // `_ = x`: the marker that keeps x used
+				}
+			}
+			// follow the chain to the reference itself (only through candidates that survived)
+			for depth := 0; depth < 8; depth++ {
+				nid, isId := e.(*ast.Ident)
+				if !isId {
+					break
+				}
+				nv, _ := nz.info.Uses[nid].(*types.Var)
+				ne, isCand := cands[nv]
+				if !isCand {
+					break
+				}
+				e = ne
+			}
+			if !isRef(e) {
+				return true
+			}
+			c.Replace(nz.copyWithInfo(e))
+			nz.changed[f] = true
+			return true
+		})
+	}
+}
+
+// copyWithInfo copies an expression and carries the type information of its identifiers and
+// sub-expressions over to the copy, so that later passes of the same round can still resolve it.
+func (nz *normaliser) copyWithInfo(e ast.Expr) ast.Expr {
+	cp := copyNode(e).(ast.Expr)
+	var a, b []ast.Node
+	ast.Inspect(e, func(n ast.Node) bool {
+		if n != nil {
+			a = append(a, n)
+		}
+		return true
+	})
+	ast.Inspect(cp, func(n ast.Node) bool {
+		if n != nil {
+			b = append(b, n)
+		}
+		return true
+	})
+	if len(a) != len(b) {
+		return cp
+	}
+	for i := range a {
+		if id, ok := a[i].(*ast.Ident); ok {
+			if nid, ok := b[i].(*ast.Ident); ok {
+				if o := nz.info.Uses[id]; o != nil {
+					nz.info.Uses[nid] = o
+				}
+			}
+		}
+		if ex, ok := a[i].(ast.Expr); ok {
+			if nex, ok := b[i].(ast.Expr); ok {
+				if tv, ok := nz.info.Types[ex]; ok {
+					nz.info.Types[nex] = tv
+				}
+			}
+		}
+	}
+	return cp
+}
+
+// ---- N12: options structs passed by value ----
+//
+// `func walk(arr []any, w arrayWalk, path []string)` with `type arrayWalk struct{fieldNames, search, selective bool}`,
+// called as `walk(a, arrayWalk{fieldNames: f}, p)` or `walk(a, w, p)`, is the function with one
+// parameter per field: `walk(arr, w_fieldNames, w_search, w_selective, path)`. The rules follow
+// individual parameters (the field-name flag, the search flag, the private key) from caller to
+// callee; a group of them travelling in a struct value is taken apart again. Conditions: the
+// struct type is declared in the package, the parameter is used only through its fields (or handed
+// on whole to another such parameter), the function is only ever called directly, and every
+// argument is a composite literal, a local variable or such a parameter.
+func (nz *normaliser) flattenStructParams() {
+	pkg := nz.pkg
+	info := nz.info
+	// struct type declarations of the package
+	structDecl := map[*types.TypeName]*ast.StructType{}
+	structFile := map[*types.TypeName]*ast.File{}
+	for _, f := range pkg.Syntax {
+		ast.Inspect(f, func(n ast.Node) bool {
+			ts, ok := n.(*ast.TypeSpec)
+			if !ok {
+				return true
+			}
+			st, ok := ts.Type.(*ast.StructType)
+			if !ok || ts.TypeParams != nil {
+				return true
+			}
+			if tn, ok := info.Defs[ts.Name].(*types.TypeName); ok && tn.Parent() == pkg.Types.Scope() {
+				okFields := st.Fields != nil && len(st.Fields.List) > 0
+				nf := 0
+				for _, fl := range st.Fields.List {
+					if len(fl.Names) == 0 {
+						okFields = false // embedded
+					}
+					nf += len(fl.Names)
+				}
+				if okFields && nf <= 12 {
+					structDecl[tn] = st
+					structFile[tn] = f
+				}
+			}
+			return true
+		})
+	}
+	if len(structDecl) == 0 {
+		return
+	}
+	structOf := func(t types.Type) *types.TypeName {
+		n, ok := t.(*types.Named)
+		if !ok {
+			return nil
+		}
+		if _, has := structDecl[n.Obj()]; has {
+			return n.Obj()
+		}
+		return nil
+	}
+	type cand struct {
+		fn    *types.Func
+		fd    *ast.FuncDecl
+		file  *ast.File
+		idx   int // parameter index in the signature
+		v     *types.Var
+		tn    *types.TypeName
+		alive bool
+	}
+	var cands []*cand
+	byVar := map[*types.Var]*cand{}
+	byFn := map[*types.Func][]*cand{}
+	for _, f := range pkg.Syntax {
+		for _, d := range f.Decls {
+			fd, ok := d.(*ast.FuncDecl)
+			if !ok || fd.Body == nil || fd.Type.TypeParams != nil {
+				continue
+			}
+			fo, ok := info.Defs[fd.Name].(*types.Func)
+			if !ok {
+				continue
+			}
+			sig := fo.Type().(*types.Signature)
+			if sig.Variadic() {
+				continue
+			}
+			for i := 0; i < sig.Params().Len(); i++ {
+				pv := sig.Params().At(i)
+				tn := structOf(pv.Type())
+				if tn == nil || pv.Name() == "" || pv.Name() == "_" {
+					continue
+				}
+				c := &cand{fn: fo, fd: fd, file: f, idx: i, v: pv, tn: tn, alive: true}
+				cands = append(cands, c)
+				byVar[pv] = c
+				byFn[fo] = append(byFn[fo], c)
+			}
+		}
+	}
+	if len(cands) == 0 {
+		return
+	}
+	calleeOf := func(ce *ast.CallExpr) *types.Func {
+		switch fx := ce.Fun.(type) {
+		case *ast.Ident:
+			fo, _ := info.Uses[fx].(*types.Func)
+			return fo
+		case *ast.SelectorExpr:
+			fo, _ := info.Uses[fx.Sel].(*types.Func)
+			return fo
+		}
+		return nil
+	}
+	candAt := func(fo *types.Func, argIdx int) *cand {
+		for _, c := range byFn[fo] {
+			if c.idx == argIdx {
+				return c
+			}
+		}
+		return nil
+	}
+	// fixpoint of disqualifications
+	for changed := true; changed; {
+		changed = false
+		kill := func(c *cand) {
+			if c != nil && c.alive {
+				c.alive = false
+				changed = true
+			}
+		}
+		for _, f := range pkg.Syntax {
+			var stack []ast.Node
+			ast.Inspect(f, func(n ast.Node) bool {
+				if n == nil {
+					stack = stack[:len(stack)-1]
+					return true
+				}
+				stack = append(stack, n)
+				switch x := n.(type) {
+				case *ast.Ident:
+					// a function with candidate parameters used other than as the callee
+					if fo, ok := info.Uses[x].(*types.Func); ok && len(byFn[fo]) > 0 {
+						direct := false
+						if len(stack) >= 2 {
+							switch p := stack[len(stack)-2].(type) {
+							case *ast.CallExpr:
+								direct = p.Fun == ast.Expr(x)
+							case *ast.SelectorExpr:
+								if len(stack) >= 3 {
+									if ce, ok := stack[len(stack)-3].(*ast.CallExpr); ok && ce.Fun == ast.Expr(p) && p.Sel == x {
+										direct = true
+									}
+								}
+							}
+						}
+						if !direct {
+							for _, c := range byFn[fo] {
+								kill(c)
+							}
+						}
+					}
+					// uses of a candidate parameter
+					if v, ok := info.Uses[x].(*types.Var); ok {
+						if c := byVar[v]; c != nil && c.alive {
+							okUse := false
+							if len(stack) >= 2 {
+								switch p := stack[len(stack)-2].(type) {
+								case *ast.SelectorExpr:
+									okUse = p.X == ast.Expr(x)
+									if sel := info.Selections[p]; sel == nil || sel.Kind() != types.FieldVal {
+										okUse = false // a method of the struct called on the parameter (inlined first, when it is a new one)
+									}
+								case *ast.ValueSpec:
+									// `var r T = p`: a local copy (what an inlined value-receiver method leaves)
+									okUse = len(p.Values) == 1 && p.Values[0] == ast.Expr(x) && len(p.Names) == 1
+								case *ast.AssignStmt:
+									okUse = p.Tok == token.DEFINE && len(p.Rhs) == 1 && len(p.Lhs) == 1 && p.Rhs[0] == ast.Expr(x)
+								case *ast.CallExpr:
+									if fo := calleeOf(p); fo != nil {
+										for ai, a := range p.Args {
+											if a == ast.Expr(x) {
+												if cc := candAt(fo, ai); cc != nil && cc.alive && cc.tn == c.tn {
+													okUse = true
+												}
+											}
+										}
+									}
+								}
+							}
+							if okUse && len(stack) >= 3 {
+								// &p.f, p.f = ..., p.f++ : the copy semantics of a by-value struct are those of locals; fine
+							}
+							if !okUse {
+								kill(c)
+							}
+						}
+					}
+				case *ast.CallExpr:
+					fo := calleeOf(x)
+					if fo == nil || len(byFn[fo]) == 0 {
+						return true
+					}
+					if x.Ellipsis.IsValid() || len(x.Args) != fo.Type().(*types.Signature).Params().Len() {
+						for _, c := range byFn[fo] {
+							kill(c)
+						}
+						return true
+					}
+					for _, c := range byFn[fo] {
+						if !c.alive {
+							continue
+						}
+						a := x.Args[c.idx]
+						okArg := false
+						switch ax := a.(type) {
+						case *ast.CompositeLit:
+							if tv, ok := info.Types[ax]; ok && structOf(tv.Type) == c.tn {
+								okArg = true
+								for _, e := range ax.Elts {
+									if kv, isKV := e.(*ast.KeyValueExpr); isKV {
+										if _, isId := kv.Key.(*ast.Ident); !isId {
+											okArg = false
+										}
+									}
+								}
+							}
+						case *ast.Ident:
+							if v, ok := info.Uses[ax].(*types.Var); ok && structOf(v.Type()) == c.tn && !v.IsField() && v.Parent() != pkg.Types.Scope() {
+								if pc := byVar[v]; pc != nil {
+									okArg = pc.alive
+								} else {
+									okArg = true // a local variable: its fields are read at the call
+								}
+							}
+						}
+						if !okArg {
+							kill(c)
+						}
+					}
+				}
+				return true
+			})
+		}
+	}
+	alive := 0
+	for _, c := range cands {
+		if c.alive {
+			alive++
+		}
+	}
+	if alive == 0 {
+		return
+	}
+	fieldsOf := func(tn *types.TypeName) (names []string, typs []ast.Expr, ttypes []types.Type) {
+		st := structDecl[tn]
+		tst := tn.Type().Underlying().(*types.Struct)
+		k := 0
+		for _, fl := range st.Fields.List {
+			for _, nm := range fl.Names {
+				names = append(names, nm.Name)
+				typs = append(typs, fl.Type)
+				ttypes = append(ttypes, tst.Field(k).Type())
+				k++
+			}
+		}
+		return
+	}
+	zeroOf := func(t types.Type, te ast.Expr) ast.Expr {
+		switch u := t.Underlying().(type) {
+		case *types.Basic:
+			switch {
+			case u.Info()&types.IsBoolean != 0:
+				return ast.NewIdent("false")
+			case u.Info()&types.IsString != 0:
+				return &ast.BasicLit{Kind: token.STRING, Value: "\"\""}
+			case u.Info()&types.IsNumeric != 0:
+				return &ast.BasicLit{Kind: token.INT, Value: "0"}
+			}
+		case *types.Pointer, *types.Slice, *types.Map, *types.Interface, *types.Signature, *types.Chan:
+			return ast.NewIdent("nil")
+		}
+		return &ast.StarExpr{X: &ast.CallExpr{Fun: ast.NewIdent("new"), Args: []ast.Expr{copyNode(te).(ast.Expr)}}}
+	}
+	addImportsFor := func(f *ast.File, e ast.Expr) {
+		ast.Inspect(e, func(n ast.Node) bool {
+			if id, ok := n.(*ast.Ident); ok {
+				if pn, ok := info.Uses[id].(*types.PkgName); ok {
+					have := false
+					for _, imp := range f.Imports {
+						if strings.Trim(imp.Path.Value, "\"") == pn.Imported().Path() {
+							have = true
+						}
+					}
+					if !have {
+						astutil.AddImport(pkg.Fset, f, pn.Imported().Path())
+					}
+				}
+			}
+			return true
+		})
+	}
+	flat := func(p, f string) string { return p + "_" + f }
+	// 1. call sites (before the parameter uses are rewritten: arguments that are candidate
+	// parameters are expanded by name)
+	for _, f := range pkg.Syntax {
+		astutil.Apply(f, nil, func(cur *astutil.Cursor) bool {
+			ce, ok := cur.Node().(*ast.CallExpr)
+			if !ok {
+				return true
+			}
+			fo := calleeOf(ce)
+			if fo == nil {
+				return true
+			}
+			var live []*cand
+			for _, c := range byFn[fo] {
+				if c.alive {
+					live = append(live, c)
+				}
+			}
+			if len(live) == 0 {
+				return true
+			}
+			var nargs []ast.Expr
+			for ai, a := range ce.Args {
+				var c *cand
+				for _, lc := range live {
+					if lc.idx == ai {
+						c = lc
+					}
+				}
+				if c == nil {
+					nargs = append(nargs, a)
+					continue
+				}
+				names, typs, ttypes := fieldsOf(c.tn)
+				switch ax := a.(type) {
+				case *ast.CompositeLit:
+					vals := make([]ast.Expr, len(names))
+					for ei, e := range ax.Elts {
+						if kv, isKV := e.(*ast.KeyValueExpr); isKV {
+							for k, nm := range names {
+								if nm == kv.Key.(*ast.Ident).Name {
+									vals[k] = kv.Value
+								}
+							}
+						} else if ei < len(vals) {
+							vals[ei] = e
+						}
+					}
+					for k := range vals {
+						if vals[k] == nil {
+							vals[k] = zeroOf(ttypes[k], typs[k])
+						}
+					}
+					nargs = append(nargs, vals...)
+				case *ast.Ident:
+					v, _ := info.Uses[ax].(*types.Var)
+					if pc := byVar[v]; pc != nil && pc.alive {
+						for _, nm := range names {
+							nargs = append(nargs, ast.NewIdent(flat(ax.Name, nm)))
+						}
+					} else {
+						for _, nm := range names {
+							nargs = append(nargs, &ast.SelectorExpr{X: ast.NewIdent(ax.Name), Sel: ast.NewIdent(nm)})
+						}
+					}
+				}
+			}
+			ce.Args = nargs
+			nz.changed[f] = true
+			return true
+		})
+	}
+	// 2. declarations and bodies
+	for _, c := range cands {
+		if !c.alive {
+			continue
+		}
+		names, typs, _ := fieldsOf(c.tn)
+		// parameter list
+		var nl []*ast.Field
+		for _, fl := range c.fd.Type.Params.List {
+			hit := false
+			for _, nm := range fl.Names {
+				if info.Defs[nm] == types.Object(c.v) {
+					hit = true
+				}
+			}
+			if !hit {
+				nl = append(nl, fl)
+				continue
+			}
+			for _, nm := range fl.Names {
+				if info.Defs[nm] == types.Object(c.v) {
+					for k := range names {
+						addImportsFor(c.file, typs[k])
+						nl = append(nl, &ast.Field{Names: []*ast.Ident{ast.NewIdent(flat(nm.Name, names[k]))}, Type: copyNode(typs[k]).(ast.Expr)})
+					}
+				} else {
+					nl = append(nl, &ast.Field{Names: []*ast.Ident{nm}, Type: fl.Type})
+				}
+			}
+		}
+		c.fd.Type.Params.List = nl
+		// uses: p.f -> p_f ; a whole-value copy `r := p` -> `r := T{f: p_f, ...}`
+		astutil.Apply(c.fd.Body, nil, func(cur *astutil.Cursor) bool {
+			if id, ok := cur.Node().(*ast.Ident); ok && info.Uses[id] == types.Object(c.v) {
+				whole := false
+				switch p := cur.Parent().(type) {
+				case *ast.ValueSpec:
+					whole = len(p.Values) == 1 && p.Values[0] == ast.Expr(id)
+				case *ast.AssignStmt:
+					whole = p.Tok == token.DEFINE && len(p.Rhs) == 1 && p.Rhs[0] == ast.Expr(id)
+				}
+				if whole {
+					cl := &ast.CompositeLit{Type: ast.NewIdent(c.tn.Name())}
+					for _, nm := range names {
+						cl.Elts = append(cl.Elts, &ast.KeyValueExpr{Key: ast.NewIdent(nm), Value: ast.NewIdent(flat(id.Name, nm))})
+					}
+					cur.Replace(cl)
+				}
+				return true
+			}
+			se, ok := cur.Node().(*ast.SelectorExpr)
+			if !ok {
+				return true
+			}
+			id, ok := se.X.(*ast.Ident)
+			if !ok {
+				return true
+			}
+			if info.Uses[id] == types.Object(c.v) {
+				cur.Replace(ast.NewIdent(flat(id.Name, se.Sel.Name)))
+			}
+			return true
+		})
+		// keep every new parameter "used" is not needed: parameters may be unused in Go
+		nz.changed[c.file] = true
+		nz.log = append(nz.log, fmt.Sprintf("struct parameter %s of %s (%s) taken apart into %d parameters", c.v.Name(), c.fn.Name(), c.tn.Name(), len(names)))
+	}
 }
